@@ -20,6 +20,9 @@ type c03Case struct {
 	Prog *ra.Program `json:"prog,omitempty"`
 	Proj *project    `json:"proj,omitempty"`
 	Cmd  []string    `json:"cmd,omitempty"` // for tree cases
+	// Stale adds five rules files with one rule and one assembly file each (941..946 without 943) and an assembly
+	// file 943100.ra whose rule exists nowhere: an --all command fails in the middle of its walk
+	Stale bool `json:"stale,omitempty"`
 	Lane string      `json:"lane"`
 }
 
@@ -91,7 +94,16 @@ func c03Check(env *core.Env, cc core.Case) core.Verdict {
 					v.Counts["runs_on_memory_file_system"]++
 				}
 			}
-			if err := c.Proj.tree().WriteOrdered(root, i%2 == 1); err != nil {
+			tree := c.Proj.tree()
+			if c.Stale {
+				for _, n := range []string{"941", "942", "944", "945", "946"} {
+					tree["regex-assembly/"+n+"100.ra"] = "fresh" + n + "\nword\n"
+					tree["rules/REQUEST-"+n+"-STALE-LANE.conf"] = "SecRule ARGS \"@rx old" + n + "\" \\\n    \"id:" + n + "100,\\\n    phase:2,\\\n    deny\"\n"
+				}
+				tree["regex-assembly/943100.ra"] = "nowhere\n"
+				tree["rules/REQUEST-943-STALE-LANE.conf"] = "# the rule 943100 was removed\n"
+			}
+			if err := tree.WriteOrdered(root, i%2 == 1); err != nil {
 				return core.Incon("cannot write tree: %v", err)
 			}
 			args := append([]string{"-d", root}, c.Cmd...)
@@ -200,6 +212,10 @@ func c03Ambiguous(rng *rand.Rand) *c03Case {
 			"##!> include-except inc xdefs xuse", "##!> include-except inc xuse xdefs exc", "##!> include-except dups exc", "##!> include-except dups other -- t T", "##!^ {{d0}}", "##!$ {{d1}}", "##!^ \\b{{d2}}", "##!$ {{d0}}{{d1}}",
 			`##!> include marks -- @ "" ~ [^\s]`, `##!> include-except marks exc -- ~ "" @ X`, `##!> include marks -- @ A ~ ""`, `cmd[\s -/]arg`, `[\s -/]`, `[\s!-/]x`, `a[^\s -~]`, `\s`, `[\s]+`))
 	}
+	if core.Chance(rng, 1, 2) {
+		// command words that end in both markers, or in the same marker twice: which one is taken off is fixed
+		ls = append(ls, "##!> cmdline "+core.Pick(rng, "unix", "windows"), "vim~@", "sh@~", "mail@@", "nc~~", "id~", "ps@", "##!<")
+	}
 	p.Main = strings.Join(ls, "\n") + "\n"
 	return &c03Case{Kind: "generate", Prog: p, Lane: "ambiguity"}
 }
@@ -208,7 +224,7 @@ func init() {
 	register(&core.Property{
 		ID:    "C03",
 		Level: "exploration",
-		Rule: "every case is executed K times (quick 12, thorough 40) in fresh processes on byte-identical inputs, with varying TZ, GOMAXPROCS, GOGC, working directory and delivery of standard input (one write, two writes with a pause, 7-byte writes, a regular file; some programs exceed the 64 KiB pipe buffer): (a) `regex generate -` on programs of an ambiguity lane (lines that more than one directive pattern could claim, 1..4 suffix-replacement pairs with chains and keys that are suffixes of each other, 2..8 definitions nested to depth 4 in shuffled order, flag sets written in any order with repeats) and on programs of the C01 lanes and the include / include-except / definition generators; (b) format --all, update --all, compare --all (text and github) and single-target forms on K copies of a generated CRS tree, created in ascending or descending order of the file names, half of them on a memory file system (/dev/shm, where a directory lists its entries in creation order). " +
+		Rule: "every case is executed K times (quick 12, thorough 40) in fresh processes on byte-identical inputs, with varying TZ, GOMAXPROCS, GOGC, working directory and delivery of standard input (one write, two writes with a pause, 7-byte writes, a regular file; some programs exceed the 64 KiB pipe buffer): (a) `regex generate -` on programs of an ambiguity lane (lines that more than one directive pattern could claim, 1..4 suffix-replacement pairs with chains and keys that are suffixes of each other, 2..8 definitions nested to depth 4 in shuffled order, flag sets written in any order with repeats) and on programs of the C01 lanes and the include / include-except / definition generators; (b) format --all, update --all, compare --all (text and github) and single-target forms on K copies of a generated CRS tree, created in ascending or descending order of the file names, half of them on a memory file system (/dev/shm, where a directory lists its entries in creation order); every other round of the --all commands works on a tree in which one assembly file has no rule, so that the command fails in the middle of its walk over six rules files: what had been rewritten by then is part of the outcome. " +
 			"Oracle: stdout bytes, exit status and (for tree commands) the resulting snapshot are identical in all K executions. The hook log shows which map iteration orders the K runs actually went through; a generate case is non-trivial only if >= 2 distinct internal orders were observed while the outcome stayed the same (with two equally likely outcomes the chance that K runs agree by luck is 2^(1-K)).",
 		Cases: func(env *core.Env, rng *rand.Rand) []core.Case {
 			n := env.N(300, 1500)
@@ -245,7 +261,12 @@ func init() {
 					t := p.targets()[0]
 					cmd := [][]string{{"regex", "format", "--all"}, {"regex", "update", "--all"}, {"regex", "compare", "--all"}, {"-o", "github", "regex", "compare", "--all"},
 						{"regex", "update", t.Key}, {"regex", "compare", t.Key}, {"regex", "format", "--check", "--all"}, {"regex", "generate", t.Key}}[(i/6)%8]
-					cs = append(cs, &c03Case{Kind: "tree", Proj: p, Cmd: cmd, Lane: "tree:" + strings.Join(cmd, " ")})
+					tc := &c03Case{Kind: "tree", Proj: p, Cmd: cmd, Lane: "tree:" + strings.Join(cmd, " ")}
+					if (i/6)%16 < 4 && strings.Contains(strings.Join(cmd, " "), "--all") {
+						// every other round of the --all commands: a run that fails in the middle of its walk
+						tc.Stale, tc.Lane = true, tc.Lane+" (failing midway)"
+					}
+					cs = append(cs, tc)
 				}
 			}
 			return cs
